@@ -87,13 +87,12 @@ Definition model (c : case) : res state * (state * res (geom_out * hdr_out)) :=
 Definition check_state (c : case) (st' : state) : bool :=
   nats_eqb (ids (files_info st')) (ob_order (c_obs c)) && Bool.eqb (shape_dirty st') (ob_dirty (c_obs c)).
 
-(** values + geometry (C02) *)
+(** values + geometry (C02); the file order left behind by the call is compared in [check_hdr] *)
 Definition check_geom (c : case) : bool :=
   contracts_ok (c_exact c) (c_files c) (c_faffs c) &&
   match model c with
   | (Err _, _) => false                                   (* every add of a case succeeds *)
   | (Ok _, (st', r)) =>
-      check_state c st' &&
       match r, ob_err (c_obs c) with
       | Err e, Some e' => err_eqb e e'
       | Ok (go, _), None =>
